@@ -599,3 +599,121 @@ B('k18_providers_index_of_objects', ['C18'], 'R18.a', (META, GMI, '''def summari
 def get_mw_infos(_application):
     return summarize_stack(_application.middlewares)[0]
 '''), (META, "        return {'middlewares': get_mw_infos(_application)}", "        infos, providers = summarize_stack(_application.middlewares)\n        return {'middlewares': infos, 'mw_providers': providers}"))
+
+# ---- big clean-up shapes ------------------------------------------------------------------------------------------------
+T('k18_parallel_assignment_of_defaults', ['C18'], (META, "    r_args = fb.args\n    r_defaults = fb.get_defaults_dict()\n", "    r_args, r_defaults = fb.args, fb.get_defaults_dict()\n"))
+_OO = '''class ResourcePeripheral(AshesMetaPeripheral):
+    title = 'Application Resources'
+    group_key = 'app'
+    template_path = 'meta_resource_section.html'
+    redacted_marker = '[REDACTED]'
+
+    def get_context(self, _application):
+        return {'resources': self.describe_resources(_application)}
+
+    @classmethod
+    def describe_resources(cls, app):
+        return [{'key': key, 'value': cls.display_value(key, val)}
+                for key, val in app.resources.items()]
+
+    @classmethod
+    def display_value(cls, key, val):
+        if cls.is_sensitive(key):
+            return cls.redacted_marker
+        return _trunc(repr(val))
+
+    @staticmethod
+    def is_sensitive(key):
+        return 'secret' in key
+'''
+_RP = '''class ResourcePeripheral(AshesMetaPeripheral):
+    title = 'Application Resources'
+    group_key = 'app'
+    template_path = 'meta_resource_section.html'
+
+    def get_context(self, _application):
+        return {'resources': get_resource_info(_application)}
+'''
+T('k18_listing_in_classmethods', ['C18'], (META, _RP, _OO), (META, GRI, "def get_resource_info(_application):\n    return ResourcePeripheral.describe_resources(_application)\n"))
+B('k18_classmethod_marker_is_value_type', ['C18'], 'R18.a', (META, _RP, _OO.replace("            return cls.redacted_marker\n", "            return cls.redacted_marker + ' ' + type(val).__name__\n")),
+  (META, GRI, "def get_resource_info(_application):\n    return ResourcePeripheral.describe_resources(_application)\n"))
+T('k18_thunk_closure_on_plain_branch', ['C18'], (META, GRI, '''def get_resource_info(_application):
+    ret = []
+
+    def add(key, shown):
+        ret.append({'key': key, 'value': shown})
+
+    for key, val in _application.resources.items():
+        def shown_value():
+            return _trunc(repr(val))
+
+        add(key, '[REDACTED]' if 'secret' in key else shown_value())
+    return ret
+'''))
+B('k18_thunk_closure_called_first', ['C18'], 'R18.a', (META, GRI, '''def get_resource_info(_application):
+    ret = []
+    for key, val in _application.resources.items():
+        def shown_value():
+            return _trunc(repr(val))
+
+        shown = shown_value()
+        ret.append({'key': key, 'value': '[REDACTED]' if 'secret' in key else shown})
+    return ret
+'''))
+T('k18_sources_table_of_lambdas', ['C18'], (META, "def get_route_arg_info(route):\n", '''ARG_SOURCES = (('builtin', lambda route, arg: arg in RESERVED_ARGS),
+               ('url', lambda route, arg: arg in route.path_args),
+               ('resources', lambda route, arg: arg in route.resources),
+               ('middleware', lambda route, arg: any(arg in mw.provides for mw in route.middlewares)))
+
+
+def get_route_arg_info(route):
+'''), (META, '''        if arg in RESERVED_ARGS:
+            source = 'builtin'
+        elif arg in route.path_args:
+            source = 'url'
+        elif arg in route.resources:
+            source = 'resources'
+        else:
+            for mw in route.middlewares:
+                if arg in mw.provides:
+                    source = 'middleware'
+                    break
+''', '''        for label, applies in ARG_SOURCES:
+            if applies(route, arg):
+                source = label
+                break
+'''))
+B('k18_sources_table_reads_resource', ['C18'], 'R18.a', (META, "def get_route_arg_info(route):\n", '''ARG_DETAILS = (('resources', lambda route, arg: repr(route.resources.get(arg))),)
+
+
+def get_route_arg_info(route):
+'''))
+T('k18_start_time_key_constant', ['C18'], (META, "        start_time = _meta_application.resources['_meta_start_time']", "        start_time = _meta_application.resources[START_TIME_KEY]"),
+  (META, "DEFAULT_PAGE_TITLE = 'Clastic'\n", "DEFAULT_PAGE_TITLE = 'Clastic'\nSTART_TIME_KEY = '_meta_start_time'\n"),
+  (META, "        resources = {'_meta_start_time': datetime.datetime.utcnow(),", "        resources = {START_TIME_KEY: datetime.datetime.utcnow(),"))
+T('k18_row_filled_by_update', ['C18'], (META, GRI, '''def get_resource_info(_application):
+    ret = list()
+    for key, val in _application.resources.items():
+        cur = dict(key=key)
+        if 'secret' in key:
+            cur.update(value='[REDACTED]')
+        else:
+            cur.update(value=_trunc(str_val=repr(val)))
+        ret.append(cur)
+    return ret
+'''))
+T('k18_mw_listing_in_classmethod', ['C18'], (META, GMI, '''def get_mw_infos(_application):
+    return MiddlewarePeripheral.describe_middlewares(_application)
+'''), (META, "    def get_context(self, _application):\n        return {'middlewares': get_mw_infos(_application)}\n", '''    def get_context(self, _application):
+        return {'middlewares': get_mw_infos(_application)}
+
+    @classmethod
+    def describe_middlewares(cls, app):
+        return [cls.describe_middleware(mw) for mw in app.middlewares]
+
+    @staticmethod
+    def describe_middleware(mw):
+        return dict(type_name=type(mw).__name__, provides=mw.provides, requires=mw.requires, repr=repr(mw))
+'''))
+T('k18_main_template_class_constant', ['C18'], (META, "        self._main_page_render = self._arf('meta_base.html')", "        self._main_page_render = self._arf(self.main_template_name)"),
+  (META, "class MetaApplication(Application):\n", "class MetaApplication(Application):\n    main_template_name = 'meta_base.html'\n\n"))
